@@ -371,6 +371,19 @@ def targets(ctx):
         "oneof_optional_mix.proto": _pkg("oneof_optional_mix", "message M { oneof a { int32 x = 1; } optional int32 o = 2; optional string p = 3; int32 mk20022 = 20022; }\n"),
         "oneof_wrapper_member.proto": _pkg("oneof_wrapper_member", "message M { oneof a { google.protobuf.Int32Value w = 1; google.protobuf.Timestamp t = 2; } int32 mk20023 = 20023; }\n",
                                             'import "google/protobuf/wrappers.proto";\nimport "google/protobuf/timestamp.proto";\n'),
+        # fields named like the scalar type names, declared before / between / after the constructs whose annotations
+        # mention those types (repeated, map, optional, wrapper)
+        "builtin_last.proto": _pkg("builtin_last", "message M { repeated int32 nums = 1; map<string, int32> m = 2; optional int32 o = 3; google.protobuf.StringValue w = 4; map<string, string> labels = 5; "
+                                   "repeated string names = 6; optional bool ob = 7; repeated float rf = 8; optional bytes oby = 9; map<int32, bytes> mb = 10; google.protobuf.BoolValue wb = 11; "
+                                   "int32 int = 12; string str = 13; bool bool = 14; float float = 15; bytes bytes = 16; int32 mk20026 = 20026; }\n", 'import "google/protobuf/wrappers.proto";\n'),
+        "builtin_first.proto": _pkg("builtin_first", "message M { int32 int = 12; string str = 13; bool bool = 14; float float = 15; bytes bytes = 16; repeated int32 nums = 1; map<string, int32> m = 2; "
+                                    "optional int32 o = 3; google.protobuf.StringValue w = 4; map<string, string> labels = 5; repeated string names = 6; optional bool ob = 7; repeated float rf = 8; "
+                                    "optional bytes oby = 9; map<int32, bytes> mb = 10; google.protobuf.BoolValue wb = 11; int32 mk20027 = 20027; }\n", 'import "google/protobuf/wrappers.proto";\n'),
+        "builtin_middle.proto": _pkg("builtin_middle", "message M { string first = 1; string str = 2; map<string, string> labels = 3; google.protobuf.StringValue w = 4; repeated int32 nums = 5; int32 int = 6; "
+                                     "optional int32 o = 7; map<int32, int32> mi = 8; google.protobuf.Int32Value wi = 9; bytes bytes = 10; repeated bytes rb = 11; int32 mk20028 = 20028; }\n", 'import "google/protobuf/wrappers.proto";\n'),
+        # type names that end in "None" / look like typing constructs in optional / oneof positions
+        "names_ending_in_none.proto": _pkg("names_ending_in_none", "message ResultOrNone { int32 a = 1; int32 mk20029 = 20029; }\nenum LevelNone { LN_ZERO = 0; LN_ONE = 1; LN_MK = 20030; }\n"
+                                           "message M { optional ResultOrNone r = 1; optional LevelNone l = 2; oneof pick { ResultOrNone x = 3; LevelNone y = 4; } repeated LevelNone rl = 5; int32 mk20031 = 20031; }\n"),
         "oneof_nested_msg.proto": _pkg("oneof_nested_msg", "message M { message In { oneof a { int32 x = 1; } oneof b { int32 y = 2; } int32 mk20024 = 20024; } In in_ = 1; int32 mk20025 = 20025; }\n"),
     }
 
